@@ -318,7 +318,14 @@ class LessParser(object):
     def p_block_open_media_query(self, p):
         """ block_open                : media_query_decl brace_open
         """
-        p[0] = Identifier(p[1]).parse(self.scope)
+        p[0] = Identifier(p[1])
+        try:
+            p[0].parse(self.scope)
+        except SyntaxError:
+            # A variable of the query that is defined further down, or not
+            # at all: resolved, or reported, when the block is evaluated.
+            # Raising here would make yacc drop the block without a word.
+            pass
 
     def p_font_face_open(self, p):
         """ block_open                : css_font_face t_ws brace_open
